@@ -87,7 +87,9 @@ func (discH) Execute(c *Case, res *Result) {
 	sim.KeepTrace = traceWanted
 	zerolog.SetGlobalLevel(zerolog.Disabled)
 	verifrt.Permute = sim.Permute
-	defer func() { verifrt.Permute = nil }()
+	// yield points inserted into discovery/helium (scratch copy): each is a scheduler step
+	verifrt.Tick = func() { _ = sim.Seam(nil, "helium", "yield", false) }
+	defer func() { verifrt.Permute, verifrt.Tick = nil, nil }()
 	uuid.SetRand(&detReader{r: rand.New(rand.NewPCG(c.Seed, 99))})
 	defer uuid.SetRand(nil)
 	var ops []discOp
